@@ -1,8 +1,10 @@
 #!/bin/sh
-# runall.sh [budget_s] [tier]: every registered check once (development aid)
-B=${1:-20}; T=${2:-quick}
+# runall.sh [tier] [budget_s]: every registered check once, from /verif against
+# /repo (this is what writes /verif/evidence/*.json). Without budget_s the
+# tier's own budgets apply.
+T=${1:-quick}; B=$2
 cd /verif
 for p in $(jq -r '.checks[].property_id' MANIFEST.json); do
-  VERIF_BUDGET_S=$B ./check $p $T > /tmp/runall.$p.log 2>&1; rc=$?
+  if [ -n "$B" ]; then VERIF_BUDGET_S=$B ./check $p $T > /tmp/runall.$p.log 2>&1; else ./check $p $T > /tmp/runall.$p.log 2>&1; fi; rc=$?
   echo "$p rc=$rc $(grep -c '^VIOLATION' /tmp/runall.$p.log) violations, $(grep -c '^KNOWN' /tmp/runall.$p.log) known: $(tail -1 /tmp/runall.$p.log | cut -c1-150)"
 done
